@@ -133,7 +133,7 @@ def len_controlled(b, bi, t):
         if not has_len or not used <= seen:
             continue
         for tb in set([x for _, x in sw["targets"]] + [sw["otherwise"]]):
-            if b.edges_dominate([(sb, tb)], bi):
+            if b.edges_dominate_correlated([(sb, tb)], bi):
                 return True
     return False
 
